@@ -24,3 +24,13 @@ pub trait ZnxNegateAssign { fn znx_negate_assign(res: &mut [i64])
     ensures final(res).len() == old(res).len(), forall|k: int| 0 <= k < old(res).len() ==> #[trigger] final(res)[k] == -old(res)[k]; }
 pub trait ZnxCopy { fn znx_copy(res: &mut [i64], a: &[i64]) requires old(res).len() == a.len() ensures final(res)@ == a@; }
 pub trait ZnxZero { fn znx_zero(res: &mut [i64]) ensures final(res).len() == old(res).len(), forall|k: int| 0 <= k < final(res).len() ==> #[trigger] final(res)[k] == 0; }
+pub trait ZnxRotate { fn znx_rotate(p: i64, res: &mut [i64], src: &[i64])
+    requires old(res).len() == src.len(), is_pow2_i(src.len() as int), src.len() <= 0x1000_0000, forall|i: int| 0 <= i < src.len() ==> #[trigger] src[i] > i64::MIN,
+    ensures final(res).len() == src.len(), forall|j: int| 0 <= j < src.len() ==> #[trigger] final(res)[j] as int == rot_coeff(src@, p as int, j); }
+pub trait ZnxAutomorphism { fn znx_automorphism(p: i64, res: &mut [i64], a: &[i64])
+    requires old(res).len() == a.len(), is_pow2_i(a.len() as int), a.len() <= 0x1000_0000, (p as int) % 2 == 1, forall|i: int| 0 <= i < a.len() ==> #[trigger] a[i] > i64::MIN,
+    ensures final(res).len() == a.len(), forall|i: int| 0 <= i < a.len() ==> #[trigger] aut_ok(final(res)@, a@, p as int, i); }
+pub trait ZnxSwitchRing { fn znx_switch_ring(res: &mut [i64], a: &[i64])
+    requires a.len() >= 1, old(res).len() >= 1, a.len() <= 0x4000_0000, old(res).len() <= 0x4000_0000, is_pow2_i(a.len() as int),
+        (a.len() >= old(res).len() && a.len() % old(res).len() == 0) || (old(res).len() > a.len() && old(res).len() % a.len() == 0),
+    ensures final(res).len() == old(res).len(), forall|i: int| 0 <= i < old(res).len() ==> #[trigger] final(res)[i] == switch_spec(a@, old(res).len() as int, i); }
